@@ -13,6 +13,9 @@ func (e *Engine) emptyMap(st *State, m *types.Map) *MapV {
 	}
 	mv := &MapV{Ref: ref, Dom: mk("const-false:"+ks.String(), SArr(ks, SBool)), Val: map[string]*Term{}, K: ks, Elem: m.Elem()}
 	mv.Dom = constArray(ks, SBool, False)
+	if opaqueElem(m.Elem()) {
+		return mv
+	}
 	for _, leaf := range mapLeaves(m.Elem(), "") {
 		mv.Val[leaf.name] = Var(e.fresher.name("map.init"+leaf.name), SArr(ks, leaf.sort))
 	}
@@ -24,7 +27,37 @@ func constArray(k, v *Sort, val *Term) *Term {
 }
 
 // mapGet returns m[k] (zero value when absent).
+// opaqueElem: the element type holds pointers or slices the array encoding does not cover (e.g. a struct with a
+// time.Time and a []string): the map's domain is tracked, its element values are not - every read gives an unknown.
+func opaqueElem(t types.Type) bool {
+	var has func(t types.Type, depth int) bool
+	has = func(t types.Type, depth int) bool {
+		if depth > 4 {
+			return true
+		}
+		switch u := t.Underlying().(type) {
+		case *types.Pointer, *types.Slice, *types.Chan:
+			return !isStringLike(t)
+		case *types.Struct:
+			for i := 0; i < u.NumFields(); i++ {
+				if has(u.Field(i).Type(), depth+1) {
+					return true
+				}
+			}
+		}
+		return false
+	}
+	if _, isStruct := t.Underlying().(*types.Struct); !isStruct {
+		return false
+	}
+	return has(t, 0)
+}
+
 func (ec *evalCtx) mapGet(m *MapV, k *Term) Value {
+	if opaqueElem(m.Elem) {
+		ec.e().notes = appendUnique(ec.e().notes, "maps whose element type holds pointers or slices inside a struct: domain tracked, element values unknown on every read")
+		return ec.e().freshNamed(ec.st, ec.e().fresher.name("mapelem"), m.Elem, 1)
+	}
 	present := Select(m.Dom, k)
 	zero := ec.e().zeroValue(ec.st, m.Elem)
 	v := ec.mapLeafRead(m, m.Elem, "", k)
@@ -69,6 +102,9 @@ func (ec *evalCtx) mapLeafRead(m *MapV, t types.Type, prefix string, k *Term) Va
 }
 
 func (ec *evalCtx) mapSet(m *MapV, k *Term, v Value) *MapV {
+	if opaqueElem(m.Elem) {
+		return &MapV{Ref: m.Ref, Dom: Store(m.Dom, k, True), Val: m.Val, K: m.K, Elem: m.Elem, Cands: m.Cands}
+	}
 	n := &MapV{Ref: m.Ref, Dom: Store(m.Dom, k, True), Val: map[string]*Term{}, K: m.K, Elem: m.Elem, Cands: m.Cands}
 	for name, arr := range m.Val {
 		n.Val[name] = arr
